@@ -108,6 +108,9 @@ struct World {
     conds: BTreeMap<String, (bool, Vec<Waker>)>,
     panics: Vec<String>,
     current: Option<TaskId>,
+    idle_waiters: Vec<(u64, Waker)>,
+    idle_fired: std::collections::BTreeSet<u64>,
+    idle_next: u64,
 }
 
 thread_local! {
@@ -158,8 +161,17 @@ pub fn install_panic_hook() {
                     .location()
                     .map(|l| {
                         let f = l.file();
-                        // keep the path from `src/` on so that the text is stable
-                        let f = f.rfind("/src/").map(|i| &f[i + 1..]).unwrap_or(f);
+                        // stable, machine-independent rendering of the location
+                        let f = if let Some(i) = f.find("/registry/src/") {
+                            let rest = &f[i + "/registry/src/".len()..];
+                            rest.split_once('/').map(|x| x.1).unwrap_or(rest)
+                        } else if let Some(i) = f.find("/library/") {
+                            &f[i + 1..]
+                        } else if let Some(r) = f.strip_prefix("/repo/") {
+                            r
+                        } else {
+                            f
+                        };
                         format!("{}:{}", f, l.line())
                     })
                     .unwrap_or_default();
@@ -205,6 +217,9 @@ pub fn reset(cfg: WorldCfg) {
             conds: BTreeMap::new(),
             panics: Vec::new(),
             current: None,
+            idle_waiters: Vec::new(),
+            idle_fired: Default::default(),
+            idle_next: 0,
         })
     });
 }
@@ -229,6 +244,7 @@ pub fn teardown() {
         d.wwaker = None;
     }
     world.conds.clear();
+    world.idle_waiters.clear();
     futs.sort_by_key(|(app, _)| *app);
     for (_, f) in futs {
         let _ = catch_unwind(AssertUnwindSafe(move || drop(f)));
@@ -731,7 +747,25 @@ pub fn run(horizon: u64) -> RunEnd {
             m
         });
         if menu.is_empty() {
-            return RunEnd::Quiescent;
+            // actors waiting for "nothing else can happen" go next; if there are none the world is quiescent
+            let ws = with(|w| {
+                let ws = std::mem::take(&mut w.idle_waiters);
+                for (t, _) in &ws {
+                    w.idle_fired.insert(*t);
+                }
+                ws
+            });
+            if ws.is_empty() {
+                return RunEnd::Quiescent;
+            }
+            if with(|w| w.step) >= horizon {
+                return RunEnd::Horizon;
+            }
+            with(|w| w.step += 1);
+            for (_, wk) in ws {
+                wk.wake();
+            }
+            continue;
         }
         if with(|w| w.step) >= horizon {
             return RunEnd::Horizon;
@@ -867,6 +901,77 @@ impl Future for WaitCond {
 
 pub fn wait_cond(name: &str) -> WaitCond {
     WaitCond(name.to_string())
+}
+
+/// Completes when nothing else in the world can make progress (no runnable task,
+/// no deliverable environment event). Actors use it instead of polling.
+pub struct Idle(Option<u64>);
+
+impl Future for Idle {
+    type Output = ();
+    fn poll(mut self: Pin<&mut Self>, cx: &mut Context<'_>) -> Poll<()> {
+        let tok = self.0;
+        let r = with(|w| match tok {
+            Some(t) => {
+                if w.idle_fired.remove(&t) {
+                    Ok(())
+                } else {
+                    // refresh the waker
+                    for e in w.idle_waiters.iter_mut() {
+                        if e.0 == t {
+                            e.1 = cx.waker().clone();
+                        }
+                    }
+                    Err(t)
+                }
+            }
+            None => {
+                let t = w.idle_next;
+                w.idle_next += 1;
+                w.idle_waiters.push((t, cx.waker().clone()));
+                Err(t)
+            }
+        });
+        match r {
+            Ok(()) => Poll::Ready(()),
+            Err(t) => {
+                self.0 = Some(t);
+                Poll::Pending
+            }
+        }
+    }
+}
+
+impl Drop for Idle {
+    fn drop(&mut self) {
+        if let Some(t) = self.0 {
+            try_with(|w| {
+                w.idle_waiters.retain(|e| e.0 != t);
+                w.idle_fired.remove(&t);
+            });
+        }
+    }
+}
+
+pub fn idle() -> Idle {
+    Idle(None)
+}
+
+/// Drives `fut` until it completes or the world goes idle with it still pending
+/// (then it is dropped and `None` returned).
+pub async fn until_idle<F: Future>(fut: F) -> Option<F::Output> {
+    let mut fut = Box::pin(fut);
+    let mut idle = Box::pin(idle());
+    std::future::poll_fn(move |cx| {
+        if let Poll::Ready(v) = fut.as_mut().poll(cx) {
+            return Poll::Ready(Some(v));
+        }
+        if idle.as_mut().poll(cx).is_ready() {
+            return Poll::Ready(None);
+        }
+        Poll::Pending
+    })
+    .await
 }
 
 pub struct YieldNow(bool);
